@@ -15,6 +15,7 @@ import trace
 PID = 'C01'
 SCHEMAS = {s.sid: s for s in S.family_F() + S.family_one_option()}
 CTXFLAGS = [0, CFGF['NOCASE'], CFGF['COMMENTS']]
+IGN = CFGF['IGNORE_UNKNOWN']
 BATCH = 400
 
 
@@ -223,9 +224,14 @@ def main():
     plan = []
     if quick:
         plan.append(('E1', fam_F + fam_O, CTXFLAGS, 4))
+        plan.append(('E1', fam_F + [x.sid for x in S.family_one_option() if any(o.has('K') for o in x.opts)], [IGN], 4))       # "for all context flags": undeclared items skipped
+        plan.append(('E1', ['F05', 'F07'], [IGN, IGN | CFGF['COMMENTS']], 5))
+        plan.append(('E1', ['F09'], [IGN], 6))      # undeclared names inside a free-form section: skipped, not collected
         plan.append(('E1', fam_F, [0], 5))
         plan.append(('E1', core, [0], 6))
     else:
+        plan.append(('E1', fam_F + fam_O, [IGN], 5))
+        plan.append(('E1', ['F05', 'F07', 'F09'], [IGN, IGN | CFGF['COMMENTS']], 7))
         plan.append(('E1', fam_F + fam_O, CTXFLAGS, 5))
         plan.append(('E1', fam_F + fam_O, CTXFLAGS, 6))
         plan.append(('E1', fam_F, CTXFLAGS, 7))
@@ -260,7 +266,7 @@ def main():
         if not agg['complete']:
             ck.cov['exhaustive'] = False
     # E1 with a reduced alphabet, deeper: repeated titles, re-opened sections, a section named like the top-level context
-    deep = ['F05', 'F06', 'F07', 'F08', 'F16', 'F18', 'F19', 'F20', 'F21']
+    deep = ['F05', 'F06', 'F07', 'F08', 'F16', 'F18', 'F19', 'F20', 'F21', 'F22']
     for N in ([8, 10] if quick else [10, 11, 12]):
         shards = []
         for sid in deep:
